@@ -1,13 +1,13 @@
 /-
 C05 (supplement) — fuel monotonicity of the core evaluator (Impl/CoreEval.lean).
 
-The evaluator is a `mutual` block of ten functions, structurally recursive on `fuel`; `Res.fuelOut`
+The evaluator is a `mutual` block of eleven functions, structurally recursive on `fuel`; `Res.fuelOut`
 means "not enough fuel".  Here: once a call does not run out of fuel, more fuel gives the SAME result
-(value, state, accumulator), for all ten functions simultaneously.  Consequently every statement about
+(value, state, accumulator), for all eleven functions simultaneously.  Consequently every statement about
 `eval` that excludes `fuelOut` is independent of the fuel, and `runProgram` is deterministic across
 fuels.
 
-Proof organisation: `Mono n m` says "each of the ten functions at fuel `m` agrees with fuel `n` unless
+Proof organisation: `Mono n m` says "each of the eleven functions at fuel `m` agrees with fuel `n` unless
 fuel `n` runs out" (as a disjunction, so that no hypothesis has to be threaded through the arms);
 `Mono.step : Mono n m → Mono (n+1) (m+1)` is proved arm by arm (the observation used everywhere is that
 `fuelOut` from a sub-call always propagates to the result), and `mono_succ : Mono n (n+1)` follows by
@@ -18,7 +18,7 @@ import NoulithModel.Impl.CoreEval
 namespace Noulith.C05Fuel
 open Noulith Noulith.Core
 
-/-- "the ten functions at fuel `m` refine fuel `n`": equal results, or fuel `n` ran out.  Each field
+/-- "the eleven functions at fuel `m` refine fuel `n`": equal results, or fuel `n` ran out.  Each field
 is stated with the fuel-`n` result named (`∃ x, … = x ∧ …`) so that a proof can name it, rewrite both
 calls to it and destructure it. -/
 structure Mono (n m : Nat) : Prop where
@@ -36,6 +36,8 @@ structure Mono (n m : Nat) : Prop where
   finDict : ∀ st env post d done, ∃ x, finishDict n st env post d done = x ∧
       (finishDict m st env post d done = x ∨ x.1 = .fuelOut)
   call : ∀ st env f args, ∃ x, callVal n st env f args = x ∧ (callVal m st env f args = x ∨ x.1 = .fuelOut)
+  evSwitch : ∀ st env v arms, ∃ x, evalSwitch n st env v arms = x ∧
+      (evalSwitch m st env v arms = x ∨ x.1 = .fuelOut)
 
 /-- `fuel_sub h with r s`: `h` is one of the `Mono` fields applied to the arguments of a sub-call that
 occurs in the goal `lhs = rhs ∨ rhs.1 = fuelOut`.  Closes the case "the sub-call ran out of fuel at `n`"
@@ -200,6 +202,13 @@ theorem ev_throw (ih : Mono n m) (st env e) : EvGoal n m st env (.throw_ e) := b
   fuel_sub (ih.ev st env e) with r st1
   exact Or.inl rfl
 
+theorem ev_switch (ih : Mono n m) (st env sc arms) : EvGoal n m st env (.switch_ sc arms) := by
+  simp only [EvGoal, eval]
+  fuel_sub (ih.ev st env sc) with r st1
+  cases r <;> try exact Or.inl rfl
+  rename_i v
+  fuel_tail (ih.evSwitch st1 env v arms)
+
 theorem ev_evalSrc (ih : Mono n m) (st env e) : EvGoal n m st env (.evalSrc e) := by
   simp only [EvGoal, eval]
   fuel_tail (ih.ev st env e)
@@ -324,11 +333,25 @@ theorem ev_all (ih : Mono n m) (st env e) : EvGoal n m st env e := by
   | ret e => exact ev_ret ih ..
   | throw_ e => exact ev_throw ih ..
   | try_ b p c => exact ev_try ih ..
+  | switch_ sc arms => exact ev_switch ih ..
   | evalSrc e => exact ev_evalSrc ih ..
   | frozen v => exact ev_frozen ..
   | freeze e => exact ev_freeze ih ..
 
-/-! ## the other nine functions -/
+/-! ## the other ten functions -/
+
+theorem step_evSwitch (ih : Mono n m) (st env v arms) :
+    evalSwitch (m + 1) st env v arms = evalSwitch (n + 1) st env v arms ∨
+      (evalSwitch (n + 1) st env v arms).1 = .fuelOut := by
+  match arms with
+  | [] => exact Or.inl (by simp only [evalSwitch])
+  | .mk p body :: rest =>
+    simp only [evalSwitch, newFrame]
+    generalize declarePat _ _ _ _ _ = y
+    obtain ⟨ok, st2⟩ := y
+    cases ok
+    · fuel_tail (ih.evSwitch st2 env v rest)
+    · fuel_tail (ih.ev st2 _ body)
 
 theorem step_evSeq (ih : Mono n m) (st env es) :
     evalSeq (m + 1) st env es = evalSeq (n + 1) st env es ∨ (evalSeq (n + 1) st env es).1 = .fuelOut := by
@@ -544,6 +567,7 @@ theorem Mono.step (ih : Mono n m) : Mono (n + 1) (m + 1) where
   fBody st env body acc := ⟨_, rfl, step_fBody ih st env body acc⟩
   finDict st env post d done := ⟨_, rfl, step_finDict ih st env post d done⟩
   call st env f args := ⟨_, rfl, step_call ih st env f args⟩
+  evSwitch st env v arms := ⟨_, rfl, step_evSwitch ih st env v arms⟩
 
 /-- with no fuel everything is `fuelOut` -/
 theorem Mono.zero (m : Nat) : Mono 0 m where
@@ -557,6 +581,7 @@ theorem Mono.zero (m : Nat) : Mono 0 m where
   fBody st env body acc := ⟨_, rfl, Or.inr (by simp only [forBody])⟩
   finDict st env post d done := ⟨_, rfl, Or.inr (by simp only [finishDict])⟩
   call st env f args := ⟨_, rfl, Or.inr (by simp only [callVal])⟩
+  evSwitch st env v arms := ⟨_, rfl, Or.inr (by simp only [evalSwitch])⟩
 
 /-- the simultaneous statement: one more unit of fuel changes nothing unless the fuel ran out -/
 theorem mono_succ : ∀ n, Mono n (n + 1)
@@ -616,7 +641,12 @@ theorem callVal_fuel_mono (n st env f args) (h : (callVal n st env f args).1 ≠
   obtain ⟨x, hx, hs⟩ := (mono_succ n).call st env f args
   subst hx; exact hs.resolve_right h
 
-/-- all ten at once, in the form the brief states it -/
+theorem evalSwitch_fuel_mono (n st env v arms) (h : (evalSwitch n st env v arms).1 ≠ .fuelOut) :
+    evalSwitch (n + 1) st env v arms = evalSwitch n st env v arms := by
+  obtain ⟨x, hx, hs⟩ := (mono_succ n).evSwitch st env v arms
+  subst hx; exact hs.resolve_right h
+
+/-- all eleven at once, in the form the brief states it -/
 theorem fuel_mono_all (n : Nat) :
     (∀ st env e, (eval n st env e).1 ≠ .fuelOut → eval (n + 1) st env e = eval n st env e) ∧
     (∀ st env es, (evalSeq n st env es).1 ≠ .fuelOut → evalSeq (n + 1) st env es = evalSeq n st env es) ∧
@@ -632,9 +662,12 @@ theorem fuel_mono_all (n : Nat) :
     (∀ st env post d done, (finishDict n st env post d done).1 ≠ .fuelOut →
       finishDict (n + 1) st env post d done = finishDict n st env post d done) ∧
     (∀ st env f args, (callVal n st env f args).1 ≠ .fuelOut →
-      callVal (n + 1) st env f args = callVal n st env f args) :=
+      callVal (n + 1) st env f args = callVal n st env f args) ∧
+    (∀ st env v arms, (evalSwitch n st env v arms).1 ≠ .fuelOut →
+      evalSwitch (n + 1) st env v arms = evalSwitch n st env v arms) :=
   ⟨eval_fuel_mono n, evalSeq_fuel_mono n, evalList_fuel_mono n, evalInto_fuel_mono n, evalWhile_fuel_mono n,
-   evalFor_fuel_mono n, forItems_fuel_mono n, forBody_fuel_mono n, finishDict_fuel_mono n, callVal_fuel_mono n⟩
+   evalFor_fuel_mono n, forItems_fuel_mono n, forBody_fuel_mono n, finishDict_fuel_mono n, callVal_fuel_mono n,
+   evalSwitch_fuel_mono n⟩
 
 /-! ## any larger fuel -/
 
@@ -649,6 +682,7 @@ theorem Mono.refl (n : Nat) : Mono n n where
   fBody _ _ _ _ := ⟨_, rfl, Or.inl rfl⟩
   finDict _ _ _ _ _ := ⟨_, rfl, Or.inl rfl⟩
   call _ _ _ _ := ⟨_, rfl, Or.inl rfl⟩
+  evSwitch _ _ _ _ := ⟨_, rfl, Or.inl rfl⟩
 
 /-- helper for transitivity, on one field -/
 theorem trans_field {α : Type} {P : α → Prop} {a b c : α}
@@ -672,8 +706,9 @@ theorem Mono.trans {a b c : Nat} (h1 : Mono a b) (h2 : Mono b c) : Mono a c wher
   fBody st env body acc := trans_field (h1.fBody st env body acc) (h2.fBody st env body acc)
   finDict st env post d done := trans_field (h1.finDict st env post d done) (h2.finDict st env post d done)
   call st env f args := trans_field (h1.call st env f args) (h2.call st env f args)
+  evSwitch st env v arms := trans_field (h1.evSwitch st env v arms) (h2.evSwitch st env v arms)
 
-/-- all ten functions, any two fuels `n ≤ m` -/
+/-- all eleven functions, any two fuels `n ≤ m` -/
 theorem mono_le {n m : Nat} (h : n ≤ m) : Mono n m := by
   obtain ⟨k, rfl⟩ := Nat.le.dest h
   induction k with
@@ -724,7 +759,7 @@ theorem eval_terminates_mono {n m : Nat} (st env e) (hnm : n ≤ m) (h : (eval n
     (eval m st env e).1 ≠ .fuelOut := by
   rw [eval_fuel_mono_le st env e hnm h]; exact h
 
-/-! ## non-vacuity: a program with a loop, a closure call and a `for … yield` terminates with fuel 40
+/-! ## non-vacuity: a program with a loop, a closure call, a `switch` and a `for … yield` terminates with fuel 40
 (so the hypotheses above are satisfiable on non-trivial programs), and does run out with fuel 3 -/
 
 /-- Boolean test used to discharge `≠ .fuelOut` hypotheses by kernel evaluation -/
@@ -740,7 +775,9 @@ def sampleProg : Expr :=
     .declare (.ident "i") (.int 0),
     .declare (.ident "f") (.lambda [.mk "a" none false] (.op "+" (.ident "a") (.int 1))),
     .while_ (.op "<" (.ident "i") (.int 3)) (.assign "i" (.call (.ident "f") [.ident "i"])),
-    .for_ [.iter .normal (.ident "x") (.list [.int 1, .int 2])] (.yield (.op "*" (.ident "x") (.ident "i")) none)
+    .for_ [.iter .normal (.ident "x") (.list [.int 1, .int 2])]
+      (.yield (.switch_ (.ident "x") [.mk (.lit 1) (.ident "i"), .mk (.ident "y") (.op "*" (.ident "y") (.ident "i"))])
+        none)
   ] false
 
 example : (runProgram 40 sampleProg).1 matches .val (.list [.int 3, .int 6]) := by decide +kernel
